@@ -315,7 +315,8 @@ def parse_state(st):
 
 
 def lost_lines(model_lines):
-    """step index -> set of memo keys whose flattened origin dropped an untracked dependency"""
+    """step index -> set of memo keys whose flattening expanded a dependency with untracked reads
+    (since /repo e43c20c such a memo is serialised with an untracked origin)"""
     out = {}
     for l in model_lines:
         m = re.match(r"^L (\d+) lost=(\S*)$", l)
@@ -341,7 +342,7 @@ def classify(case_text, model_lines):
         if op[0] == "snapshot":
             feats.add("snapshot")
             if lost.get(i):
-                feats.add("flatten_dropped_untracked")
+                feats.add("memo_serialised_untracked_because_of_flattened_dependency")
             for k, mm in memos.items():
                 fam = int(k.split(".")[0])
                 if fam in PERSISTED and mm["hv"] == "1":
